@@ -69,7 +69,7 @@ def main():
         # demonstrations written in a scratch worktree may pin that worktree's path: point them at this copy
         with open(demo, encoding="utf-8") as f:
             demo_text = f.read()
-        for wt in (f"/tmp/seed/{pid}", f"/tmp/seed2/{pid}", f"/tmp/seed3/{pid}", f"/tmp/seed4/{pid}", f"/tmp/seed5/{pid}", f"/tmp/seed6/{pid}", os.path.dirname(os.path.abspath(src))):
+        for wt in (f"/tmp/seed/{pid}", f"/tmp/seed2/{pid}", f"/tmp/seed3/{pid}", f"/tmp/seed4/{pid}", f"/tmp/seed5/{pid}", f"/tmp/seed6/{pid}", f"/tmp/seed7/{pid}", f"/tmp/seed8/{pid}", os.path.dirname(os.path.abspath(src))):
             demo_text = demo_text.replace(wt + "/", repo + "/").replace(wt, repo)
         with open(os.path.join(repo, "seed_out", "demo.py"), "w", encoding="utf-8") as f:
             f.write(demo_text)
